@@ -952,6 +952,66 @@ func ruleINV6(c *Ctx) {
 			}
 		}
 		c.Check(n >= 2, fnName(fn)+" / containment tests use the name parameter as needle", p.Pos(fn.Pos()), fmt.Sprintf("%d containment tests with the parameter as needle", n), "Reset(name) does not test containment of its parameter in both node kinds")
+		// each fallback loop clears an element as soon as its registry key OR its rule text contains the name: the true
+		// edge of both containment tests leads straight to the store (no further condition in between)
+		for _, f := range []*types.Var{exprSnap, atomSnap} {
+			var loop *Loop
+			for _, l := range naturalLoops(fn) {
+				x := rangeOperand(l)
+				if x == nil {
+					continue
+				}
+				if ff, base := fieldLoad(x); ff == f && base == ssa.Value(receiver(fn)) {
+					loop = l
+				}
+			}
+			construct := fmt.Sprintf("%s / %s: key or text containing the name is enough", fnName(fn), f.Name())
+			if loop == nil {
+				c.Fail(construct, p.Pos(fn.Pos()), "no loop over "+f.Name())
+				continue
+			}
+			storeBlocks := map[*ssa.BasicBlock]bool{}
+			for b := range loop.Blocks {
+				for _, in := range b.Instrs {
+					if sf, _, val := fieldStore(in); sf != nil {
+						if _, isEval := m.evalFields[sf]; isEval {
+							if bv, isb := constBool(val); isb && !bv {
+								storeBlocks[b] = true
+							}
+						}
+					}
+				}
+			}
+			byKey, byText := false, false
+			for b := range loop.Blocks {
+				iff, isIf := b.Instrs[len(b.Instrs)-1].(*ssa.If)
+				if !isIf {
+					continue
+				}
+				call, isCall := iff.Cond.(*ssa.Call)
+				if !isCall || !matchPkgFunc("strings", "Contains")(call) || len(fn.Params) < 2 || call.Call.Args[1] != ssa.Value(fn.Params[1]) {
+					continue
+				}
+				// true edge leads to the store through unconditional jumps only
+				t := b.Succs[0]
+				for i := 0; i < 4 && !storeBlocks[t]; i++ {
+					if _, isJump := t.Instrs[len(t.Instrs)-1].(*ssa.Jump); !isJump || len(t.Succs) != 1 {
+						break
+					}
+					t = t.Succs[0]
+				}
+				if !storeBlocks[t] {
+					continue
+				}
+				hay := call.Call.Args[0]
+				if hf, _ := fieldLoad(hay); hf != nil && hf.Name() == "GrlText" {
+					byText = true
+				} else if isRangeKeyOf(hay, loop) {
+					byKey = true
+				}
+			}
+			c.Check(byKey && byText, construct, p.Pos(fn.Pos()), "strings.Contains(key, name) || strings.Contains(node.GrlText, name) lead straight to the store", fmt.Sprintf("the fallback of Reset(name) no longer clears every node whose registry key or rule text contains the name (byKey=%v byText=%v): Forget/Changed with a snippet that is not a variable leaves matching nodes remembered", byKey, byText))
+		}
 		// forwarding branch: ResetVariable called with the range value whose GrlText equals the name
 		fw := findCalls(fn, matchStatic(m.resetVar))
 		okFw := len(fw) >= 1
